@@ -602,7 +602,19 @@ def verify_witness_program(witness, version, program, flags, is_p2sh_wrapped, sh
                 _fail("eval false")
             return
         if len(program) == 20:
-            raise NotImplementedError("p2wpkh needs a signature check")
+            # BIP141 P2WPKH: exactly two witness items, run DUP HASH160 <program> EQUALVERIFY CHECKSIG (needs evkw["sigs"])
+            if len(witness) != 2:
+                _fail("witness program mismatch")
+            stack = list(witness)
+            for el in stack:
+                if len(el) > MAX_SCRIPT_ELEMENT_SIZE:
+                    _fail("push size")
+            ev(stack, bytes([OP_DUP, OP_HASH160, 20]) + bytes(program) + bytes([OP_EQUALVERIFY, OP_CHECKSIG]), True)
+            if len(stack) != 1:
+                _fail("cleanstack")
+            if not cast_to_bool(stack[-1]):
+                _fail("eval false")
+            return
         _fail("witness program wrong length")
     if version == 1 and len(program) == 32 and not is_p2sh_wrapped:
         if "TAPROOT" in flags:
